@@ -5,6 +5,7 @@ package main
 // executes the callee's real SSA body: no contract is assumed.
 
 import (
+	"fmt"
 	"go/token"
 	"go/types"
 	"strings"
@@ -125,4 +126,149 @@ func (c *FnCtx) dispatchInline(st *State, recv *Val, mname string, args []*Val) 
 		out = &Val{T: out.T, S: c.define("disp."+mname, c.sortOf(out.T), out.S)}
 	}
 	return out, out != nil
+}
+
+// ---------------------------------------------------------------------------
+// Inlining of function literals that are called where they are created (or through
+// a local variable holding the closure): the callee's real SSA body is executed in
+// place, block by block, when its control-flow graph is acyclic. Captured variables
+// are the caller's own objects (the bindings of the MakeClosure).
+
+type inlFrame struct {
+	fn   *ssa.Function
+	rets []*retSite
+}
+
+func acyclicInlineable(f *ssa.Function) bool {
+	if f == nil || len(f.Blocks) == 0 || len(f.Blocks) > 48 || f.Recover != nil {
+		return false
+	}
+	for _, b := range f.Blocks {
+		for _, s := range b.Succs {
+			if s.Dominates(b) {
+				return false // loop
+			}
+		}
+		for _, ins := range b.Instrs {
+			switch ins.(type) {
+			case *ssa.Defer, *ssa.Go, *ssa.Select, *ssa.RunDefers:
+				return false
+			}
+		}
+	}
+	return true
+}
+
+func rpoOf(f *ssa.Function) []*ssa.BasicBlock {
+	seen := map[*ssa.BasicBlock]bool{}
+	var post []*ssa.BasicBlock
+	var dfs func(b *ssa.BasicBlock)
+	dfs = func(b *ssa.BasicBlock) {
+		seen[b] = true
+		for _, s := range b.Succs {
+			if !seen[s] {
+				dfs(s)
+			}
+		}
+		post = append(post, b)
+	}
+	dfs(f.Blocks[0])
+	for i, j := 0, len(post)-1; i < j; i, j = i+1, j-1 {
+		post[i], post[j] = post[j], post[i]
+	}
+	return post
+}
+
+// inlineClosureCall executes mc.Fn(args...) in place. st is updated to the state after the call.
+func (c *FnCtx) inlineClosureCall(st *State, mc *ssa.MakeClosure, args []*Val) ([]*Val, bool) {
+	f, ok := mc.Fn.(*ssa.Function)
+	if !ok || !acyclicInlineable(f) || len(args) != len(f.Params) || len(mc.Bindings) != len(f.FreeVars) || c.inl != nil {
+		return nil, false
+	}
+	for i, p := range f.Params {
+		a := args[i]
+		switch {
+		case a.T == nil && a.S == "nil":
+			c.regs[p] = c.mk(p.Type(), c.zero(p.Type()))
+		case a.T == nil:
+			c.regs[p] = c.mk(p.Type(), a.S)
+		default:
+			c.regs[p] = &Val{T: p.Type(), S: c.coerce(a, p.Type()), LV: a.LV, Tup: a.Tup}
+		}
+	}
+	for i, fv := range f.FreeVars {
+		b := c.val(st, mc.Bindings[i])
+		c.regs[fv] = &Val{T: fv.Type(), S: b.S, LV: b.LV}
+	}
+	frame := &inlFrame{fn: f}
+	c.inl = frame
+	defer func() { c.inl = nil }()
+	c.inlSeq++
+	tag := fmt.Sprintf("inl%d", c.inlSeq)
+	out := map[*ssa.BasicBlock]*State{}
+	entry := st.clone()
+	for _, b := range rpoOf(f) {
+		var stb *State
+		var edges []inEdge
+		for _, p := range b.Preds {
+			ps := out[p]
+			if ps == nil {
+				continue
+			}
+			idx := -1
+			for i, s := range p.Succs {
+				if s == b {
+					if idx == -1 {
+						idx = i
+					} else {
+						idx = -2
+					}
+				}
+			}
+			cond := ps.pc
+			if idx >= 0 {
+				cond = and(ps.pc, c.edgeCond(p, idx))
+			}
+			edges = append(edges, inEdge{pred: p, st: ps, cond: cond})
+		}
+		if b == f.Blocks[0] {
+			stb = entry
+		} else if len(edges) == 0 {
+			continue
+		} else {
+			stb = c.mergeStates(fmt.Sprintf("%s.b%d", tag, b.Index), edges)
+		}
+		for _, ins := range b.Instrs {
+			phi, ok := ins.(*ssa.Phi)
+			if !ok {
+				break
+			}
+			c.regs[phi] = c.phiMerge(stb, phi, edges)
+		}
+		c.execBlock(stb, b)
+		out[b] = stb
+	}
+	if len(frame.rets) == 0 {
+		return nil, false
+	}
+	var edges []inEdge
+	for _, r := range frame.rets {
+		edges = append(edges, inEdge{st: r.st, cond: r.st.pc})
+	}
+	merged := c.mergeStates(tag+".ret", edges)
+	nres := f.Signature.Results().Len()
+	var results []*Val
+	for k := 0; k < nres; k++ {
+		rt := f.Signature.Results().At(k).Type()
+		t := frame.rets[len(frame.rets)-1].vals[k].S
+		for i := len(frame.rets) - 2; i >= 0; i-- {
+			t = ite(frame.rets[i].st.pc, frame.rets[i].vals[k].S, t)
+		}
+		if len(frame.rets) > 1 {
+			t = c.define(fmt.Sprintf("%s.res%d", tag, k), c.sortOf(rt), t)
+		}
+		results = append(results, &Val{T: rt, S: t})
+	}
+	st.pc, st.heaps, st.cells, st.flags, st.nextRef = merged.pc, merged.heaps, merged.cells, merged.flags, merged.nextRef
+	return results, true
 }
